@@ -65,6 +65,36 @@ def load_table():
     return {(e["function"], e["op"]): e["count"] for e in d["entries"]}, set(d["functions"])  # dict or list: its keys
 
 
+def adt_shapes(prog):
+    """{type path: shape} for the library's structs / enums; the shape does not mention the type's own name"""
+    out = {}
+    for it in prog.items:
+        if it.get("item") != "adt" or it.get("unit") != "svgdx-lib" or not it["path"].startswith("svgdx::"):
+            continue
+        own = it["path"].rsplit("::", 1)[-1]
+        vs = []
+        for v in it.get("variants", []):
+            vs.append([v["name"] if v["name"] != own else "<self>", [[f["name"], f["ty"].replace(it["path"], "<Self>")] for f in v.get("fields", [])]])
+        out[it["path"]] = [it.get("adt_kind"), vs]
+    return out
+
+
+def adt_renames(prog):
+    """{new type path: reviewed type path}: same module, same shape, old name gone"""
+    with open(TABLE) as fh:
+        d = json.load(fh)
+    recorded = d.get("adts") or {}
+    cur = adt_shapes(prog)
+    vanished = {k: v for k, v in recorded.items() if k not in cur}
+    new = {k: v for k, v in cur.items() if k not in recorded}
+    out = {}
+    for g, sg in sorted(new.items()):
+        cands = [f for f, sf in sorted(vanished.items()) if f not in out.values() and f.rsplit("::", 1)[0] == g.rsplit("::", 1)[0] and json.dumps(sf).replace(f, "<Self>") == json.dumps(sg).replace(g, "<Self>")]
+        if len(cands) == 1:
+            out[g] = cands[0]
+    return out
+
+
 def renames(prog, edges=None, funcs=None):
     """{new function: the reviewed function it is a renaming of}: a function that did not exist at review time, in the
     same module / impl as one that has vanished since, and called from exactly the (renamed) callers recorded for it"""
